@@ -41,14 +41,22 @@ def cases(tier, seed):
         cuts = list(range(0, len(h) + 1))
         if tier == "quick":
             cuts = sorted(rng.sample(cuts, min(3, len(cuts))))
+        cfg = None
+        if rng.random() < 0.3:
+            cfg = rng.choice([
+                {"max_motifs_per_node": rng.choice([2, 3, 4])},
+                {"attractor_candidates_limit": rng.choice([1, 2, 3]), "retained_set_optimization_threshold": rng.choice([0, 1, 2])},
+                {"minimum_simulation_budget": 0},
+                {"retained_set_optimization_threshold": 0, "nfvs_size_threshold": 0},
+            ])
         for k in cuts:
-            out.append({"net": n, "cls": n["cls"], "history": h, "cut": k, "insert": rng.choice(["pickle", "pickle", "reclaim", "both", "pickle2"]), "rs": rng.randrange(1 << 30)})
+            out.append({"net": n, "cls": n["cls"], "history": h, "cut": k, "insert": rng.choice(["pickle", "pickle", "reclaim", "both", "pickle2"]), "config": cfg, "rs": rng.randrange(1 << 30)})
     return out
 
 
 def gate(agg):
     c = agg["cnt"]
-    need = ["twin_runs", "dumps_compared", "returns_compared", "insert:pickle", "insert:reclaim", "insert:both", "pickled_with_cached_nets", "pickled_with_sets", "pickled_with_candidates_only", "post_cut_attractor_calls", "post_cut_control_calls"]
+    need = ["twin_runs", "dumps_compared", "returns_compared", "insert:pickle", "insert:reclaim", "insert:both", "pickled_with_cached_nets", "pickled_with_sets", "pickled_with_candidates_only", "post_cut_attractor_calls", "post_cut_control_calls", "non_default_config_runs"]
     return [f"monitor counter {k} is zero" for k in need if c.get(k, 0) == 0]
 
 
@@ -78,8 +86,10 @@ def run_case(case):
     if big:
         hist = [op for op in hist if op[0] not in ("target", "control")]
     try:
-        sd1 = bb.make_sd(net)
-        sd2 = bb.make_sd(net)
+        sd1 = bb.make_sd(net, case.get("config"))
+        sd2 = bb.make_sd(net, case.get("config"))
+        if case.get("config"):
+            res.c("non_default_config_runs")
         done = []
         post = 0
         post_attr = False
@@ -169,6 +179,8 @@ def _compare(sd1, sd2, res, bb, ctx, reclaimed, tag, ref):
             if a[fld] != b[fld]:
                 res.v(f"dump-differs:{fld}:{tag}", f"node {a['id']}: {fld} = {str(a[fld])[:160]} (untouched) vs {str(b[fld])[:160]}", ctx=ctx)
                 return
+    if dict(sd1.config) != dict(sd2.config):
+        res.v(f"dump-differs:config:{tag}", f"configuration differs: {dict(sd1.config)} vs {dict(sd2.config)}", ctx=ctx)
     if sd1.nfvs != sd2.nfvs:
         res.v(f"dump-differs:nfvs:{tag}", "sd.nfvs differs", ctx=ctx)
     if len(sd1) != len(sd2) or sd1.depth() != sd2.depth():
